@@ -234,111 +234,7 @@ func rulesC07(e *Engine, r *Report) {
 
 	// ---------------------------------------------------------------- R07.7
 	r.Rule("R07.7", "the gap scan over the receiver's part list moves past every part it examines: the position that becomes the Beg of each missing range is, on every loop-carried path, the End of the part just examined (never left where it was); the parts are sorted before the scan; a missing range ends at the Beg of the part that follows the gap, the tail ends at the file size")
-	if top := needFn(e, r, "R07.7", "client.(*Broker).recover"); top != nil {
-		found := 0
-		for _, cf := range WithClosures(top) {
-			var loopHdr *ssa.BasicBlock
-			Instrs(cf, func(in ssa.Instruction) {
-				st, ok := in.(*ssa.Store)
-				if !ok {
-					return
-				}
-				fa, ok := st.Addr.(*ssa.FieldAddr)
-				if !ok {
-					return
-				}
-				f := fieldVar(fa.X, fa.Field)
-				if f == nil || f.Name() != "Beg" || !strings.HasSuffix(e.typeShort(fa.X.Type()), "sts.ByteRange") {
-					return
-				}
-				ph, ok := st.Val.(*ssa.Phi)
-				if !ok {
-					return
-				}
-				hb := ph.Block()
-				if !e.fnInfo(cf).cyclic[hb] {
-					return
-				}
-				found++
-				loopHdr = hb
-				var facts []string
-				okAll := true
-				for i, ed := range ph.Edges {
-					pred := hb.Preds[i]
-					cv := e.Canon(ed)
-					if hb.Dominates(pred) { // loop-carried
-						if _, isPhi := ed.(*ssa.Phi); !isPhi && pat("§[§].End").MatchString(cv) {
-							facts = append(facts, "carried: "+cv)
-						} else {
-							okAll = false
-							facts = append(facts, "CARRIED UNCHANGED OR FOREIGN: "+cv)
-						}
-					} else {
-						facts = append(facts, "initial: "+cv)
-						if cv != "0" {
-							okAll = false
-						}
-					}
-				}
-				r.Check(okAll, "R07.7", fmt.Sprintf("%s: scan position feeding ByteRange.Beg #%d", e.ShortName(cf), found), e.InstrPos(st),
-					"the gap scan can leave its position behind a part it has seen: later gaps and the tail then include bytes the receiver holds (they are sent again)", len(ph.Edges), facts...)
-			})
-			// sorted before scanned
-			if loopHdr != nil {
-				srt := e.findInstrs(cf, "call(sort.Sort)(§)", false)
-				okS := len(srt) == 1 && srt[0].Block().Dominates(loopHdr) && srt[0].Block() != loopHdr
-				if okS {
-					// the list sorted is the list scanned
-					lst := e.Canon(srt[0].(ssa.CallInstruction).Common().Args[0])
-					okS = len(e.ifEdges(cf, "(§ < builtin(len)("+lst+"))")) > 0
-				}
-				r.Check(okS, "R07.7", e.ShortName(cf)+": the list scanned was sorted (sort.Sort) before the loop", e.Pos(cf.Pos()),
-					"gaps are computed over an unsorted part list (parts are recorded in arrival order): ranges the receiver holds would be sent again", 1)
-				// ... and sorted by where the parts begin (the scan walks upwards through the file)
-				if len(srt) == 1 {
-					arg := srt[0].(ssa.CallInstruction).Common().Args[0]
-					if mi, ok := arg.(*ssa.MakeInterface); ok {
-						T := mi.X.Type()
-						var pkg *types.Package
-						if nt, ok := T.(*types.Named); ok {
-							pkg = nt.Obj().Pkg()
-						}
-						less := e.Prog.LookupMethod(T, pkg, "Less")
-						swap := e.Prog.LookupMethod(T, pkg, "Swap")
-						okL := false
-						var lv string
-						if less != nil {
-							Instrs(less, func(in ssa.Instruction) {
-								if rt, ok := in.(*ssa.Return); ok && len(rt.Results) == 1 {
-									lv = e.Canon(rt.Results[0])
-									okL = lv == "((p0[p1].Beg - p0[p2].Beg) < 0)" || lv == "(p0[p1].Beg < p0[p2].Beg)" || lv == "(p0[p2].Beg > p0[p1].Beg)"
-								}
-							})
-						}
-						r.Check(okL, "R07.7", e.ShortName(cf)+": the part list is ordered by Beg (ascending)", e.InstrPos(srt[0]),
-							"the comparator the gap scan relies on does not order parts by their first byte: touching or overlapping parts listed out of order stay out of order and held ranges are sent again / reversed ranges are produced ("+lv+")", 1, lv)
-						okW := swap != nil && len(e.findInstrs(swap, "store(p0[p1] = p0[p2])", false)) == 1 && len(e.findInstrs(swap, "store(p0[p2] = p0[p1])", false)) == 1
-						r.Check(okW, "R07.7", e.ShortName(cf)+": Swap exchanges the two elements", e.InstrPos(srt[0]), "the sort's Swap does not exchange elements i and j", 1)
-					} else {
-						r.Unresolved("R07.7", "type of the list handed to sort.Sort in "+e.ShortName(cf))
-					}
-				}
-				ends := e.fieldStoreVals(cf, "sts.ByteRange", "End")
-				sort.Strings(ends)
-				okE := len(ends) == 2
-				for _, v := range ends {
-					if !(pat("§[§].Beg").MatchString(v) || pat("invoke(sts.Cached.GetSize)(p0)").MatchString(v)) {
-						okE = false
-					}
-				}
-				r.Check(okE, "R07.7", e.ShortName(cf)+": a gap ends at the next part's Beg, the tail at the file size", e.Pos(cf.Pos()),
-					"the end of a missing range is not the start of the part after the gap / the file size: "+strings.Join(ends, " | "), len(ends), ends...)
-				copyIn := e.findInstrs(cf, "builtin(copy)(§, §.Parts)", false)
-				r.Check(len(copyIn) == 1, "R07.7", e.ShortName(cf)+": the receiver's list is copied and sorted before the scan", e.Pos(cf.Pos()), "the part list is not sorted before gaps are computed", 1)
-			}
-		}
-		r.Min("R07.7", "gap-scan positions found", found, 2)
-	}
+	e.checkGapScan(r, "R07.7")
 	// ---------------------------------------------------------------- R07.8
 	r.Rule("R07.8", "a resumed file allocates exactly its missing ranges: recoverFile.Allocate returns range.Beg + used (values before the call), advances used by the desired length inside a range, and at a range's end returns End-offset, moves to the next range and leaves used at 0 as the last write (as R11.1); it is done when all ranges were handed out; its send size is the sum of the missing ranges")
 	e.checkRecoverAllocate(r, "R07.8")
@@ -410,4 +306,115 @@ func reaches(from, to, avoid *ssa.BasicBlock) bool {
 		st = append(st, x.Succs...)
 	}
 	return false
+}
+
+// checkGapScan: recover() derives the missing byte ranges of a partly
+// received file from the receiver's part list (shared by R07.7 and R11.6: the
+// ranges it produces are what the resumed file is tiled from).
+func (e *Engine) checkGapScan(r *Report, rule string) {
+	if top := needFn(e, r, rule, "client.(*Broker).recover"); top != nil {
+		found := 0
+		for _, cf := range WithClosures(top) {
+			var loopHdr *ssa.BasicBlock
+			Instrs(cf, func(in ssa.Instruction) {
+				st, ok := in.(*ssa.Store)
+				if !ok {
+					return
+				}
+				fa, ok := st.Addr.(*ssa.FieldAddr)
+				if !ok {
+					return
+				}
+				f := fieldVar(fa.X, fa.Field)
+				if f == nil || f.Name() != "Beg" || !strings.HasSuffix(e.typeShort(fa.X.Type()), "sts.ByteRange") {
+					return
+				}
+				ph, ok := st.Val.(*ssa.Phi)
+				if !ok {
+					return
+				}
+				hb := ph.Block()
+				if !e.fnInfo(cf).cyclic[hb] {
+					return
+				}
+				found++
+				loopHdr = hb
+				var facts []string
+				okAll := true
+				for i, ed := range ph.Edges {
+					pred := hb.Preds[i]
+					cv := e.Canon(ed)
+					if hb.Dominates(pred) { // loop-carried
+						if _, isPhi := ed.(*ssa.Phi); !isPhi && pat("§[§].End").MatchString(cv) {
+							facts = append(facts, "carried: "+cv)
+						} else {
+							okAll = false
+							facts = append(facts, "CARRIED UNCHANGED OR FOREIGN: "+cv)
+						}
+					} else {
+						facts = append(facts, "initial: "+cv)
+						if cv != "0" {
+							okAll = false
+						}
+					}
+				}
+				r.Check(okAll, rule, fmt.Sprintf("%s: scan position feeding ByteRange.Beg #%d", e.ShortName(cf), found), e.InstrPos(st),
+					"the gap scan can leave its position behind a part it has seen: later gaps and the tail then include bytes the receiver holds (they are sent again)", len(ph.Edges), facts...)
+			})
+			// sorted before scanned
+			if loopHdr != nil {
+				srt := e.findInstrs(cf, "call(sort.Sort)(§)", false)
+				okS := len(srt) == 1 && srt[0].Block().Dominates(loopHdr) && srt[0].Block() != loopHdr
+				if okS {
+					// the list sorted is the list scanned
+					lst := e.Canon(srt[0].(ssa.CallInstruction).Common().Args[0])
+					okS = len(e.ifEdges(cf, "(§ < builtin(len)("+lst+"))")) > 0
+				}
+				r.Check(okS, rule, e.ShortName(cf)+": the list scanned was sorted (sort.Sort) before the loop", e.Pos(cf.Pos()),
+					"gaps are computed over an unsorted part list (parts are recorded in arrival order): ranges the receiver holds would be sent again", 1)
+				// ... and sorted by where the parts begin (the scan walks upwards through the file)
+				if len(srt) == 1 {
+					arg := srt[0].(ssa.CallInstruction).Common().Args[0]
+					if mi, ok := arg.(*ssa.MakeInterface); ok {
+						T := mi.X.Type()
+						var pkg *types.Package
+						if nt, ok := T.(*types.Named); ok {
+							pkg = nt.Obj().Pkg()
+						}
+						less := e.Prog.LookupMethod(T, pkg, "Less")
+						swap := e.Prog.LookupMethod(T, pkg, "Swap")
+						okL := false
+						var lv string
+						if less != nil {
+							Instrs(less, func(in ssa.Instruction) {
+								if rt, ok := in.(*ssa.Return); ok && len(rt.Results) == 1 {
+									lv = e.Canon(rt.Results[0])
+									okL = lv == "((p0[p1].Beg - p0[p2].Beg) < 0)" || lv == "(p0[p1].Beg < p0[p2].Beg)" || lv == "(p0[p2].Beg > p0[p1].Beg)"
+								}
+							})
+						}
+						r.Check(okL, rule, e.ShortName(cf)+": the part list is ordered by Beg (ascending)", e.InstrPos(srt[0]),
+							"the comparator the gap scan relies on does not order parts by their first byte: touching or overlapping parts listed out of order stay out of order and held ranges are sent again / reversed ranges are produced ("+lv+")", 1, lv)
+						okW := swap != nil && len(e.findInstrs(swap, "store(p0[p1] = p0[p2])", false)) == 1 && len(e.findInstrs(swap, "store(p0[p2] = p0[p1])", false)) == 1
+						r.Check(okW, rule, e.ShortName(cf)+": Swap exchanges the two elements", e.InstrPos(srt[0]), "the sort's Swap does not exchange elements i and j", 1)
+					} else {
+						r.Unresolved(rule, "type of the list handed to sort.Sort in "+e.ShortName(cf))
+					}
+				}
+				ends := e.fieldStoreVals(cf, "sts.ByteRange", "End")
+				sort.Strings(ends)
+				okE := len(ends) == 2
+				for _, v := range ends {
+					if !(pat("§[§].Beg").MatchString(v) || pat("invoke(sts.Cached.GetSize)(p0)").MatchString(v)) {
+						okE = false
+					}
+				}
+				r.Check(okE, rule, e.ShortName(cf)+": a gap ends at the next part's Beg, the tail at the file size", e.Pos(cf.Pos()),
+					"the end of a missing range is not the start of the part after the gap / the file size: "+strings.Join(ends, " | "), len(ends), ends...)
+				copyIn := e.findInstrs(cf, "builtin(copy)(§, §.Parts)", false)
+				r.Check(len(copyIn) == 1, rule, e.ShortName(cf)+": the receiver's list is copied and sorted before the scan", e.Pos(cf.Pos()), "the part list is not sorted before gaps are computed", 1)
+			}
+		}
+		r.Min(rule, "gap-scan positions found", found, 2)
+	}
 }
